@@ -1,0 +1,250 @@
+//! Kani proof harnesses for integer / index kernels (compiled only under `cargo kani`).
+//! Each harness states its bound; unwinding assertions are on (Kani default), so a too-small
+//! unwind bound is reported instead of silently truncating.
+#![allow(missing_docs)]
+use crate::linear_codes::verif_hooks::{get_indices_from_sponge, get_num_bytes};
+use crate::utils::{ceil_div, ceil_mul};
+use ark_crypto_primitives::sponge::{Absorb, CryptographicSponge, FieldElementSize};
+use ark_ff::{BigInt, Fp, FpConfig, PrimeField, SqrtPrecomputation};
+use ark_std::marker::PhantomData;
+use ark_std::vec::Vec;
+
+// ------------------------------------------------------------------ a 1-limb toy prime field (p = 13)
+pub(crate) struct ToyCfg;
+pub(crate) type F13 = Fp<ToyCfg, 1>;
+const P: u64 = 13;
+const fn f(v: u64) -> F13 {
+    Fp(BigInt([v]), PhantomData)
+}
+impl FpConfig<1> for ToyCfg {
+    const MODULUS: BigInt<1> = BigInt([P]);
+    const GENERATOR: F13 = f(2);
+    const ZERO: F13 = f(0);
+    const ONE: F13 = f(1);
+    const TWO_ADICITY: u32 = 2;
+    const TWO_ADIC_ROOT_OF_UNITY: F13 = f(8);
+    const SQRT_PRECOMP: Option<SqrtPrecomputation<F13>> = None;
+    fn add_assign(a: &mut F13, b: &F13) {
+        a.0 .0[0] = ((a.0 .0[0] as u8 + b.0 .0[0] as u8) % (P as u8)) as u64;
+    }
+    fn sub_assign(a: &mut F13, b: &F13) {
+        a.0 .0[0] = ((a.0 .0[0] as u8 + (P as u8) - b.0 .0[0] as u8) % (P as u8)) as u64;
+    }
+    fn double_in_place(a: &mut F13) {
+        let b = *a;
+        Self::add_assign(a, &b)
+    }
+    fn neg_in_place(a: &mut F13) {
+        a.0 .0[0] = (((P as u8) - a.0 .0[0] as u8) % (P as u8)) as u64;
+    }
+    fn mul_assign(a: &mut F13, b: &F13) {
+        a.0 .0[0] = ((a.0 .0[0] as u8 * b.0 .0[0] as u8) % (P as u8)) as u64;
+    }
+    fn sum_of_products<const T: usize>(a: &[F13; T], b: &[F13; T]) -> F13 {
+        let mut s = f(0);
+        for i in 0..T {
+            let mut t = a[i];
+            Self::mul_assign(&mut t, &b[i]);
+            Self::add_assign(&mut s, &t);
+        }
+        s
+    }
+    fn square_in_place(a: &mut F13) {
+        let b = *a;
+        Self::mul_assign(a, &b)
+    }
+    fn inverse(a: &F13) -> Option<F13> {
+        if a.0 .0[0] == 0 {
+            return None;
+        }
+        let mut r = f(1);
+        let mut i = 0;
+        while i < P - 2 {
+            Self::mul_assign(&mut r, a);
+            i += 1;
+        }
+        Some(r)
+    }
+    fn from_bigint(o: BigInt<1>) -> Option<F13> {
+        if o.0[0] < P {
+            Some(f(o.0[0]))
+        } else {
+            None
+        }
+    }
+    fn into_bigint(o: F13) -> BigInt<1> {
+        o.0
+    }
+}
+fn any_f13() -> F13 {
+    let v: u8 = kani::any();
+    kani::assume(v < 13);
+    f(v as u64)
+}
+
+// ------------------------------------------------------------------ utils::ceil_div / ceil_mul
+/// ceil_div is the exact ceiling quotient for all operands up to 2^16 (y > 0); bound: 16-bit operands
+/// (the full 64-bit division did not finish in 24 minutes).
+#[kani::proof]
+fn ceil_div_exact_16bit() {
+    let x: usize = kani::any();
+    let y: usize = kani::any();
+    kani::assume(x <= 1 << 16 && y >= 1 && y <= 1 << 16);
+    let q = ceil_div(x, y);
+    assert!(q * y >= x);
+    assert!(q == 0 || (q - 1) * y < x);
+}
+/// same, 8-bit operands (quick tier)
+#[kani::proof]
+fn ceil_div_exact_8bit() {
+    let x: usize = kani::any();
+    let y: usize = kani::any();
+    kani::assume(x <= 1 << 8 && y >= 1 && y <= 1 << 8);
+    let q = ceil_div(x, y);
+    assert!(q * y >= x);
+    assert!(q == 0 || (q - 1) * y < x);
+}
+/// ceil_mul(a, (n, d)) = ceil(a*n/d) for operands up to 2^10, d > 0
+#[kani::proof]
+fn ceil_mul_exact_6bit() {
+    let a: usize = kani::any();
+    let n: usize = kani::any();
+    let d: usize = kani::any();
+    kani::assume(a <= 1 << 6 && n <= 1 << 6 && d >= 1 && d <= 1 << 6);
+    let q = ceil_mul(a, (n, d));
+    assert!(q * d >= a * n);
+    assert!(q == 0 || (q - 1) * d < a * n);
+}
+/// reachability witness for the two harnesses above (must FAIL): the assertion is not vacuous
+#[kani::proof]
+#[kani::should_panic]
+fn ceil_div_witness() {
+    let x: usize = kani::any();
+    kani::assume(x <= 16);
+    assert!(ceil_div(x, 3) != 2);
+}
+
+// ------------------------------------------------------------------ linear_codes::utils::get_num_bytes
+/// for every usize n >= 1: 256^(b-1) <= n < 256^b with b = get_num_bytes(n); n = 0 needs 0 bytes
+#[kani::proof]
+fn num_bytes_bracket() {
+    let n: usize = kani::any();
+    let b = get_num_bytes(n);
+    assert!(b <= 8);
+    if n == 0 {
+        assert!(b == 0);
+    } else {
+        assert!(b >= 1);
+        // n < 256^b
+        if b < 8 {
+            assert!(n < (1usize << (8 * b)));
+        }
+        // 256^(b-1) <= n
+        assert!(n >= (1usize << (8 * (b - 1))));
+    }
+}
+
+// ------------------------------------------------------------------ get_indices_from_sponge
+/// a sponge whose squeezed bytes are arbitrary: every byte string the real sponge could return
+#[derive(Clone)]
+pub(crate) struct AnySponge;
+impl CryptographicSponge for AnySponge {
+    type Config = ();
+    fn new(_: &()) -> Self {
+        AnySponge
+    }
+    fn absorb(&mut self, _input: &impl Absorb) {}
+    fn squeeze_bytes(&mut self, n: usize) -> Vec<u8> {
+        let mut v = Vec::with_capacity(2);
+        let mut i = 0;
+        while i < n {
+            v.push(kani::any());
+            i += 1;
+        }
+        v
+    }
+    fn squeeze_bits(&mut self, _n: usize) -> Vec<bool> {
+        Vec::new()
+    }
+    fn squeeze_field_elements_with_sizes<F: PrimeField>(&mut self, _: &[FieldElementSize]) -> Vec<F> {
+        Vec::new()
+    }
+}
+/// for every codeword length 1 <= n <= 2^16, every t <= 3 and every squeezed byte string:
+/// exactly t indices, each < n
+#[kani::proof]
+#[kani::unwind(5)]
+fn indices_in_range() {
+    let n: usize = kani::any();
+    let t: usize = kani::any();
+    kani::assume(n >= 1 && n <= 1 << 16 && t <= 3);
+    let mut s = AnySponge;
+    let idx = get_indices_from_sponge(n, t, &mut s).unwrap();
+    assert!(idx.len() == t);
+    let mut i = 0;
+    while i < idx.len() {
+        assert!(idx[i] < n);
+        i += 1;
+    }
+}
+
+// ------------------------------------------------------------------ streaming folded polynomials
+use crate::streaming_kzg::verif_init_stack;
+use ark_ff::Zero;
+
+/// init_stack: the pre-seeded zero levels sum to the padding 2^k - (n mod 2^k) and strictly decrease;
+/// one harness per depth (container capacities must stay concrete), 1 <= n <= 16
+fn init_stack_padding(k: usize) {
+    let n: usize = kani::any();
+    kani::assume(n >= 1 && n <= 16);
+    let st = verif_init_stack::<F13>(n, k);
+    let chunk = 1usize << k;
+    let pad = if n % chunk == 0 { 0 } else { chunk - n % chunk };
+    let mut sum = 0usize;
+    let mut prev = usize::MAX;
+    let mut i = 0;
+    while i < st.len() {
+        let (lvl, v) = st[i];
+        assert!(v.is_zero());
+        assert!(lvl < prev);
+        prev = lvl;
+        sum += 1 << lvl;
+        i += 1;
+    }
+    assert!(sum == pad);
+}
+#[kani::proof]
+#[kani::unwind(10)]
+fn init_stack_padding_k1() {
+    init_stack_padding(1)
+}
+#[kani::proof]
+#[kani::unwind(10)]
+fn init_stack_padding_k2() {
+    init_stack_padding(2)
+}
+#[kani::proof]
+#[kani::unwind(10)]
+fn init_stack_padding_k3() {
+    init_stack_padding(3)
+}
+
+// ------------------------------------------------------------------ IPA succinct check polynomial
+use crate::ipa_pc::SuccinctCheckPolynomial;
+/// evaluate(z) == Horner(compute_coeffs(), z) for every challenge pair and point of F_13 (k = 2):
+/// cross-check of the SMT verdict in a different semantics
+#[kani::proof]
+#[kani::unwind(66)]
+fn succinct_check_k2() {
+    let p = SuccinctCheckPolynomial(ark_std::vec![any_f13(), any_f13()]);
+    let z = any_f13();
+    let co = p.compute_coeffs();
+    assert!(co.len() == 4);
+    let mut acc = f(0);
+    let mut i = co.len();
+    while i > 0 {
+        i -= 1;
+        acc = acc * z + co[i];
+    }
+    assert!(p.evaluate(z) == acc);
+}
